@@ -43,6 +43,8 @@ type c11 struct {
 	rp     *world.RPNode
 	next   string
 	rpMode oidc.ResponseMode
+	// kind and storage method of the storage fault of the current step
+	faultKind, faultMethod string
 }
 
 func modeIsFormPost(m oidc.ResponseMode) bool { return m == oidc.ResponseModeFormPost }
@@ -79,10 +81,12 @@ func (c *c11) raw(ch *kernel.Chooser) string {
 	}
 	inject := func() {
 		fired := false
-		kind := ch.Pick(world.FaultSentinel, world.FaultSentinel, world.FaultError)
+		kind := ch.Pick(world.FaultSentinel, world.FaultSentinel, world.FaultError, world.FaultWrapped, world.FaultWrapped)
+		c.faultKind, c.faultMethod = kind, ""
 		w.Store.Inject = func(n int, method string, rid int) string {
 			if n >= storageK && !fired && method != "GetClientByClientID" {
 				fired = true
+				c.faultMethod = method
 				c.o.Fault(kind)
 				return kind
 			}
@@ -266,6 +270,19 @@ func (c *c11) storageError(desc string, r *world.Resp, state, redirect, mode, re
 		c.viol("error_description", ar.Mode+"/storage-error", "%s: the error description arrived as %q, the storage's error text is %q", desc, d, world.ErrInjected.Error())
 	} else if strings.Contains(d, "injected storage failure") {
 		c.o.Probe("storage-error-text-arrived-intact")
+	}
+	// an OAuth error that the storage itself produced for the failed call (plain, or wrapped by a layer above it) is
+	// what the provider produced: its code and description arrive unchanged
+	if c.faultKind == world.FaultWrapped || c.faultKind == world.FaultSentinel {
+		wantCode, wantDesc := "access_denied", world.WrappedDescription
+		if c.faultKind == world.FaultSentinel {
+			wantCode, wantDesc = "server_error", "simstore: storage unavailable"
+		}
+		if p.Get("error") != wantCode || p.Get("error_description") != wantDesc {
+			c.viol("error", ar.Mode+"/storage-oauth-error/"+c.faultKind+"/"+c.faultMethod, "%s: the storage answered %s with the OAuth error %s / %q (%s); the client received %q / %q", desc, c.faultMethod, wantCode, wantDesc, c.faultKind, p.Get("error"), p.Get("error_description"))
+		} else {
+			c.o.Probe("storage-oauth-error-arrived-intact")
+		}
 	}
 	if p.Get("code") != "" || p.Get("id_token") != "" || p.Get("access_token") != "" {
 		c.viol("error", ar.Mode+"/storage-error-leak", "%s: error response carries a code or token", desc)
